@@ -1,8 +1,8 @@
 """C12 Failures propagate and are never replayed from the cache -- kernel contracts on the real scheduler functions."""
-from pyvc.smt import *
-from pyvc.core import Module
-from pyvc import frame_scan
-from pyvc.result import Result
+from pvc.smt import *
+from pvc.core import Module
+from pvc import frame_scan
+from pvc.result import Result
 
 PROPERTY = "C12"
 S = "redun/scheduler.py"
@@ -80,7 +80,7 @@ def record_error_value(eng, n, st, old):
     st.pc.append(f"(= {rec.s} {iserr.s})")
     st.ver += 1
     if eng.try_depth and eng.choice(2) == 1:
-        from pyvc.core import RaiseEx
+        from pvc.core import RaiseEx
         raise RaiseEx("TypeError", None, n.lineno)
     return h
 
